@@ -1747,7 +1747,8 @@ func lPop(n *Nodis, conn *redis.Conn, cmd redis.Command) {
 			conn.WriteBulkNull()
 			return
 		}
-		if count == 1 {
+		if len(cmd.Args) <= 1 {
+			// no count given: one bulk string; with a count (also a count of 1) the reply is an array
 			conn.WriteBulk(string(v[0]))
 			return
 		}
@@ -1779,7 +1780,8 @@ func rPop(n *Nodis, conn *redis.Conn, cmd redis.Command) {
 			conn.WriteBulkNull()
 			return
 		}
-		if count == 1 {
+		if len(cmd.Args) <= 1 {
+			// no count given: one bulk string; with a count (also a count of 1) the reply is an array
 			conn.WriteBulk(string(v[0]))
 			return
 		}
